@@ -11,8 +11,6 @@ Local Open Scope Z_scope.
 (** [passes k a1..a4]: no guard of table entry k raises on these operands *)
 Definition passes (k : Z) (a1 a2 a3 a4 : val) : Prop := run_entry vm_table k a1 a2 a3 a4 = -1.
 
-Ltac destr_val v := destruct v as [?z|?z|?z| |[[ | | | | ] ?l [|]]].
-
 Ltac finish :=
   repeat match goal with
          | H : (_ <=? _) = true |- _ => apply Z.leb_le in H
@@ -24,15 +22,21 @@ Ltac finish :=
          end;
   try discriminate; try congruence; try lia.
 
-(** case analysis on every comparison that the goal or a hypothesis is stuck on *)
-Ltac split_cmp :=
-  repeat match goal with
-         | H : context [?a <=? ?b] |- _ => destruct (a <=? b) eqn:?; cbn [andb orb negb] in *
-         | H : context [?a <? ?b] |- _ => destruct (a <? b) eqn:?; cbn [andb orb negb] in *
-         | |- context [?a <=? ?b] => destruct (a <=? b) eqn:?; cbn [andb orb negb] in *
-         | |- context [?a <? ?b] => destruct (a <? b) eqn:?; cbn [andb orb negb] in *
-         | |- context [?a =? ?b] => destruct (a =? b) eqn:?; cbn [andb orb negb] in *
-         end.
+Ltac red_all :=
+  cbn [first_raise guard_holds holds mk_state sarg junk eval_i eval_l len_as cmpb tag_eqb o_tag o_len o_imm negb
+       spec andb orb Z.add Pos.add Pos.succ Pos.add_carry] in *;
+  unfold indexed, typed, is_obj, in_range in *.
+
+(** follow the guards: split only the value, object, tag or comparison the next test is stuck on;
+    a branch in which a guard raises has a hypothesis k = -1 with k >= 0 and is closed at once *)
+Ltac follow :=
+  repeat (red_all; try discriminate;
+          match goal with
+          | H : context [match ?v with _ => _ end] |- _ => is_var v; destruct v
+          | H : context [if ?b then _ else _] |- _ => destruct b eqn:?
+          | |- context [match ?v with _ => _ end] => is_var v; destruct v
+          | |- context [if ?b then _ else _] => destruct b eqn:?
+          end).
 
 Ltac norm_table :=
   unfold passes, run_entry in *;
@@ -41,11 +45,9 @@ Ltac norm_table :=
       let e := eval vm_compute in (lookup vm_table c) in change (lookup vm_table c) with e in H
   | |- context [lookup vm_table ?c] =>
       let e := eval vm_compute in (lookup vm_table c) in change (lookup vm_table c) with e
-  end;
-  cbn [first_raise guard_holds holds mk_state sarg junk eval_i eval_l len_as cmpb tag_eqb o_tag o_len o_imm negb
-       spec indexed typed is_obj in_range andb orb] in *.
+  end.
 
-Ltac solve_refine := intros; norm_table; split_cmp; finish.
+Ltac solve_refine := intros; norm_table; follow; red_all; finish; try reflexivity.
 
 (** soundness direction, by operand shape: each lemma fixes the shapes that matter and leaves the
     numbers universally quantified *)
@@ -53,47 +55,47 @@ Section Refine.
   Variables a1 a2 a3 a4 : val.
 
   Lemma refine_vector_ref : passes code_VECTOR_REF a1 a2 a3 a4 -> spec PrVectorRef [a1; a2] <> MustError.
-  Proof. destr_val a1; destr_val a2; solve_refine. Qed.
+  Proof. solve_refine. Qed.
   Lemma refine_vector_set : passes code_VECTOR_SET a1 a2 a3 a4 -> spec PrVectorSet [a1; a2; a3] <> MustError.
-  Proof. destr_val a1; destr_val a2; solve_refine. Qed.
+  Proof. solve_refine. Qed.
   Lemma refine_vector_length : passes code_VECTOR_LENGTH a1 a2 a3 a4 -> spec PrVectorLength [a1] <> MustError.
-  Proof. destr_val a1; solve_refine. Qed.
+  Proof. solve_refine. Qed.
   Lemma refine_bytes_ref : passes code_BYTES_REF a1 a2 a3 a4 -> spec PrBytesRef [a1; a2] <> MustError.
-  Proof. destr_val a1; destr_val a2; solve_refine. Qed.
+  Proof. solve_refine. Qed.
   Lemma refine_bytes_set : passes code_BYTES_SET a1 a2 a3 a4 -> spec PrBytesSet [a1; a2; a3] <> MustError.
-  Proof. destr_val a1; destr_val a2; destr_val a3; solve_refine. Qed.
+  Proof. solve_refine. Qed.
   Lemma refine_bytes_length : passes code_BYTES_LENGTH a1 a2 a3 a4 -> spec PrBytesLength [a1] <> MustError.
-  Proof. destr_val a1; solve_refine. Qed.
+  Proof. solve_refine. Qed.
   Lemma refine_string_ref : passes code_STRING_REF a1 a2 a3 a4 -> spec PrStringCursorRef [a1; a2] <> MustError.
-  Proof. destr_val a1; destr_val a2; solve_refine. Qed.
+  Proof. solve_refine. Qed.
   Lemma refine_string_set : passes code_STRING_SET a1 a2 a3 a4 -> spec PrStringCursorSet [a1; a2; a3] <> MustError.
-  Proof. destr_val a1; destr_val a2; destr_val a3; solve_refine. Qed.
+  Proof. solve_refine. Qed.
   Lemma refine_cursor_next : passes code_STRING_CURSOR_NEXT a1 a2 a3 a4 -> spec PrStringCursorNext [a1; a2] <> MustError.
-  Proof. destr_val a1; destr_val a2; solve_refine. Qed.
+  Proof. solve_refine. Qed.
   Lemma refine_cursor_prev : passes code_STRING_CURSOR_PREV a1 a2 a3 a4 -> spec PrStringCursorPrev [a1; a2] <> MustError.
-  Proof. destr_val a1; destr_val a2; solve_refine. Qed.
+  Proof. solve_refine. Qed.
   Lemma refine_cursor_end : passes code_STRING_CURSOR_END a1 a2 a3 a4 -> spec PrStringCursorEnd [a1] <> MustError.
-  Proof. destr_val a1; solve_refine. Qed.
+  Proof. solve_refine. Qed.
   Lemma refine_string_length : passes code_STRING_LENGTH a1 a2 a3 a4 -> spec PrStringLength [a1] <> MustError.
-  Proof. destr_val a1; solve_refine. Qed.
+  Proof. solve_refine. Qed.
   Lemma refine_car : passes code_CAR a1 a2 a3 a4 -> spec PrCar [a1] <> MustError.
-  Proof. destr_val a1; solve_refine. Qed.
+  Proof. solve_refine. Qed.
   Lemma refine_cdr : passes code_CDR a1 a2 a3 a4 -> spec PrCdr [a1] <> MustError.
-  Proof. destr_val a1; solve_refine. Qed.
+  Proof. solve_refine. Qed.
   Lemma refine_set_car : passes code_SET_CAR a1 a2 a3 a4 -> spec PrSetCar [a1; a2] <> MustError.
-  Proof. destr_val a1; solve_refine. Qed.
+  Proof. solve_refine. Qed.
   Lemma refine_set_cdr : passes code_SET_CDR a1 a2 a3 a4 -> spec PrSetCdr [a1; a2] <> MustError.
-  Proof. destr_val a1; solve_refine. Qed.
+  Proof. solve_refine. Qed.
   Lemma refine_make_vector : passes code_MAKE_VECTOR a1 a2 a3 a4 -> spec PrMakeVector [a1; a2] <> MustError.
-  Proof. destr_val a1; solve_refine. Qed.
+  Proof. solve_refine. Qed.
 
   (** completeness direction: inside the must-value domain no guard raises *)
   Lemma complete_vector_ref : spec PrVectorRef [a1; a2] = MustValue -> passes code_VECTOR_REF a1 a2 a3 a4.
-  Proof. destr_val a1; destr_val a2; solve_refine. Qed.
+  Proof. solve_refine. Qed.
   Lemma complete_bytes_set : spec PrBytesSet [a1; a2; a3] = MustValue -> passes code_BYTES_SET a1 a2 a3 a4.
-  Proof. destr_val a1; destr_val a2; destr_val a3; solve_refine. Qed.
+  Proof. solve_refine. Qed.
   Lemma complete_cursor_next : spec PrStringCursorNext [a1; a2] = MustValue -> passes code_STRING_CURSOR_NEXT a1 a2 a3 a4.
-  Proof. destr_val a1; destr_val a2; solve_refine. Qed.
+  Proof. solve_refine. Qed.
 End Refine.
 
 (** all seventeen in one statement *)
@@ -126,3 +128,14 @@ Proof.
   - apply refine_car.  - apply refine_cdr.  - apply refine_set_car.  - apply refine_set_cdr.
   - apply refine_make_vector.
 Qed.
+
+Lemma guards_complete_spec_proof : forall p a1 a2 a3 a4,
+  spec p (prim_args p a1 a2 a3) = MustValue -> passes (prim_code p) a1 a2 a3 a4.
+Proof. intros p a1 a2 a3 a4. destruct p; cbn [prim_code prim_args]; solve_refine. Qed.
+
+(** both directions are falsifiable: an index equal to the length passes no table and is MustError *)
+Example ex_refine_boundary :
+  ~ passes code_VECTOR_REF (Ptr (mkobj TVector 3 false)) (Fix 3) Imm Imm
+  /\ spec PrVectorRef [Ptr (mkobj TVector 3 false); Fix 3] = MustError
+  /\ passes code_VECTOR_REF (Ptr (mkobj TVector 3 false)) (Fix 2) Imm Imm.
+Proof. unfold passes. repeat split; vm_compute; congruence. Qed.
